@@ -22,7 +22,10 @@ func BeginBlocker(ctx sdk.Context, k keeper.Keeper) {
 	vestedCoins := sdk.NewCoins()
 	for _, reward := range params.PerBlockReward {
 		remainingCoin := k.GetRemainingCoin(ctx, reward.GetDenom())
-		if remainingCoin.IsZero() {
+		// a denomination may be listed more than once: only what is left after the amounts already
+		// scheduled for this block can still be vested
+		remainingCoin.Amount = remainingCoin.Amount.Sub(vestedCoins.AmountOf(reward.GetDenom()))
+		if !remainingCoin.IsPositive() {
 			continue
 		}
 		if remainingCoin.Amount.LT(reward.Amount) {
